@@ -8,7 +8,7 @@
     (= [in_polygon], the crossing count with the half-open rule). *)
 From Coq Require Import List Bool Arith ZArith PArith QArith Qabs Qreduction Sorted Permutation.
 From Gen Require Import GenGeom.
-From P Require Import Locate LocBasics LocSearch LocPolygon LocConvex LocStraight LocBlock LocTrack LocRefuted LineModel LocRect LocLine LocEnd LocMain.
+From P Require Import Locate LocBasics LocSearch LocPolygon LocConvex LocStraight LocBlock LocTrack LocRefuted LineModel LocRect LocLine LocEnd LocMain LocOverlap.
 Import ListNotations.
 Open Scope Q_scope.
 
@@ -528,6 +528,36 @@ Proof. exact ex_end_to_end_hyps. Qed.
 Theorem chord_unique : forall l l1 l2 a b a' b', crossing l l1 l2 a b -> crossing l l1 l2 a' b' -> a == a' /\ b == b'.
 Proof. exact crossing_unique. Qed.
 Print Assumptions chord_unique.
+
+(** chords of different columns do not overlap (the statement the end-to-end theorem left out): under
+    its tiling hypothesis, two distinct columns' chords (a, b) and (a', b') are disjoint intervals of
+    the line parameter, and in entry order the first column is left before (or exactly where) the
+    second is entered - the gap between two listed segments is never negative *)
+Theorem chords_of_distinct_columns_do_not_overlap :
+  forall (polygon : colfun (list pt)) (l1 l2 : pt) (cols : list positive) c c' a b a' b',
+  (forall t, 0 <= t -> t <= 1 -> forall c c', In c cols -> In c' cols ->
+     strictly_inside (polygon c) (lpoint l1 l2 t) -> strictly_inside (polygon c') (lpoint l1 l2 t) -> c = c') ->
+  In c cols -> In c' cols -> c <> c' ->
+  crossing (polygon c) l1 l2 a b -> crossing (polygon c') l1 l2 a' b' ->
+  b <= a' \/ b' <= a.
+Proof. exact chords_disjoint. Qed.
+Print Assumptions chords_of_distinct_columns_do_not_overlap.
+Theorem chords_in_entry_order_do_not_overlap :
+  forall (polygon : colfun (list pt)) (l1 l2 : pt) (cols : list positive) c c' a b a' b',
+  (forall t, 0 <= t -> t <= 1 -> forall c c', In c cols -> In c' cols ->
+     strictly_inside (polygon c) (lpoint l1 l2 t) -> strictly_inside (polygon c') (lpoint l1 l2 t) -> c = c') ->
+  In c cols -> In c' cols -> c <> c' ->
+  crossing (polygon c) l1 l2 a b -> crossing (polygon c') l1 l2 a' b' ->
+  a <= a' -> b <= a'.
+Proof. exact chords_in_entry_order. Qed.
+Print Assumptions chords_in_entry_order_do_not_overlap.
+(** hypotheses hold together: columns 1 and 4 of the M-grid on the line x = 50 (y = -10 .. 250); their chords abut at 11/26 *)
+Example chords_do_not_overlap_ex :
+  let l1 := (50, -10) in let l2 := (50, 250) in let cols := [1; 4]%positive in
+  (1 # 26) <= (11 # 26) /\ ex_tiling m_polygon l1 l2 cols /\
+  In 1%positive cols /\ In 4%positive cols /\ 1%positive <> 4%positive /\
+  crossing (m_polygon 1) l1 l2 (1 # 26) (11 # 26) /\ crossing (m_polygon 4) l1 l2 (11 # 26) (21 # 26).
+Proof. exact ex_chords_hyps. Qed.
 
 (** ** no hidden state (the model statement mirrored by the sequence oracle on the implementation):
     after any history of queries and edits the answer is that of the current geometry alone *)
